@@ -688,6 +688,15 @@ class Zone(dns.transaction.TransactionManager):
             else:
                 txt_is_utf8 = style.txt_is_utf8
             style = style.replace(idna_codec=idna_codec, txt_is_utf8=txt_is_utf8)
+        if (
+            style.want_generic
+            and style.origin is None
+            and self.relativize
+            and self.origin is not None
+        ):
+            # The generic rdata form is built from wire format, which needs
+            # absolute names; relative names still print as they are.
+            style = style.replace(origin=self.origin, relativize=True)
         if isinstance(f, str):
             cm: contextlib.AbstractContextManager = open(f, "wb")
         else:
